@@ -67,6 +67,9 @@ Definition float_bound (bits : N) : Z := Z.of_N (if bits =? 32 then pow2 128 els
 Definition float_max (bits : N) : Z :=
   if bits =? 32 then (2 ^ 24 - 1) * 2 ^ 104 else (2 ^ 53 - 1) * 2 ^ 971.
 
+(* how an infinity is carried (no finite float times 1024 reaches it) *)
+Definition float_inf : Z := 2 ^ 2000.
+
 Definition parse_float (bits : N) (s : str) : outcome Z :=
   let '(neg, body) :=
     match s with
@@ -76,7 +79,12 @@ Definition parse_float (bits : N) (s : str) : outcome Z :=
   let '(ip, r1) := span_digits body in
   let '(fp, r2) := match r1 with 46 :: r => span_digits r | _ => ([], r1) end in
   match ip, fp with
-  | [], [] => Err e_syntax
+  | [], [] =>
+      (* strconv's special values: "inf" / "infinity" in any letter case, signed or not, are an
+         infinity of either size (never an overflow); "nan" is not modelled *)
+      let w := lower_s body in
+      if str_eqb w (s2r "inf") || str_eqb w (s2r "infinity") then Ok (if neg then (- float_inf)%Z else float_inf)
+      else Err e_syntax
   | _, _ =>
       let eo : option (bool * N) :=
         match r2 with
